@@ -14,7 +14,8 @@ generated Gallina against the Python code; see harness/props/C09.py):
   a, b = b, a     -> right-hand sides first, then stores left to right
   [e]*n, b'..'*n  -> py_repeat;  bytearray(n) -> py_zeros (ValueError if n < 0)
   bytearray(it)   -> mk_bytes (ValueError unless every element is in 0..255)
-  range(a,b,s)    -> py_range (literal non-zero step);  enumerate(x) -> py_enumerate;  zip/izip -> combine
+  range(a,b,s)    -> py_range (literal non-zero step);  enumerate(x) -> py_enumerate;  zip/izip -> combine;
+                     reversed(x) -> rev x (only as an iterable)
   [e for p in it] -> map / mapM;  generator expressions likewise (only as arguments)
   for p in it     -> fold over the list; tuple targets allowed
   while c: body   -> while_fuel with the fuel expression given by the unit (OutOfFuel when exhausted;
@@ -400,6 +401,10 @@ class Fn9(FnTranslator):
             x = self.iter_term(it.args[0], env)
             y = self.iter_term(it.args[1], env)
             return Term('(combine %s %s)' % (x.code, y.code), ('list', ('tup', elt(x.ty), elt(y.ty))), x.binds + y.binds)
+        if isinstance(it, ast.Call) and isinstance(it.func, ast.Name) and it.func.id == 'reversed' and len(it.args) == 1 \
+                and not it.keywords:
+            x = self.iter_term(it.args[0], env)
+            return Term('(rev %s)' % x.code, x.ty if x.ty == 'bytes' else ('list', elt(x.ty)), x.binds)
         t = self.expr(it, env)
         if not is_seq(t.ty):
             raise Refuse('iteration over %r (line %d)' % (t.ty, it.lineno))
